@@ -17,7 +17,7 @@ def run(ck):
     if not ck.build_driver(): return
     if not ck.prove():
         ck.report_proof_failure("theorems about the semaphore model / regenerated errno table no longer build")
-    wraps = "-Wl,--wrap=sem_wait,--wrap=sem_trywait,--wrap=sem_timedwait,--wrap=clock_gettime"
+    wraps = "-Wl,--wrap=sem_wait,--wrap=sem_trywait,--wrap=sem_timedwait,--wrap=clock_gettime,--wrap=sem_post,--wrap=sem_init,--wrap=sem_destroy"
     exe = ck.cc("h_c17", ["h_c17.c", os.path.join(REPO, "src/posix/sem_posix.c"), os.path.join(REPO, "src/errno_status.c")], flags=[wraps], libs=["-lpthread"])
     if not exe: return
     outs = ["ok", "EINTR", "EAGAIN", "ETIMEDOUT", "EINVAL"]
@@ -29,6 +29,12 @@ def run(ck):
                 h.append(op + " " + " ".join(t))
                 ck.count_distinct((op, t), "EINTR" in t)
     hist.append(h)
+    # the single-call functions: post, init (arguments too), destroy
+    h2 = []
+    for r in ["ok", "EOVERFLOW", "EINVAL", "ENOMEM", "EPERM", "EINTR", "EAGAIN"]:
+        h2 += ["post " + r, "destroy " + r] + ["init %d %s" % (v, r) for v in (0, 1, 7, 2147483647, 4294967295)]
+    for l in h2: ck.count_distinct(l)
+    hist.append(h2)
     NSB = [0, 1, 999999998, 999999999]
     SB = [0, 1, 2, 4294967295]
     NB = [0, 1, 999999999, 1000000000, 1000000001, 1999999999, 2000000000, 2000000001, 2100000000, 2999999999, 3000000000, 3999999999,
